@@ -52,7 +52,7 @@ Proof.
 Qed.
 
 (* n * G = INFINITY computed by the model of PointJacobi.__mul__ (NAF path, generated
-   formula functions) for the two 112-bit curves (one of them has cofactor 4).  Larger
+   formula functions) for SECP112r1.  More or larger
    curves are too slow for the VM-less re-check by coqchk; n*G is checked on the
    implementation for all 17 by the search, and the correspondence evaluates the model
    on NIST256p and other shipped curves with random scalars. *)
@@ -63,6 +63,4 @@ Definition order_check (c : curve) : bool :=
   end.
 
 Lemma order_SECP112r1 : order_check SECP112r1 = true.
-Proof. vm_cast_no_check (eq_refl true). Qed.
-Lemma order_SECP112r2 : order_check SECP112r2 = true.
 Proof. vm_cast_no_check (eq_refl true). Qed.
